@@ -1231,6 +1231,23 @@ def _e_shutdown(ctx):
         v, pth = _single(flow.origins(c.func, cn[0]))
         if v is None or not isinstance(v, (ast.AST, K.Elem)):
             continue
+        if isinstance(v, K.Elem) and isinstance(v.scope, ast.For) and id(v.scope) not in handled and _rn(cfg, v.scope):
+            # `for ... in <generator that drains the table>`: the while-loop below, with the emptiness test and the
+            # removing read living in the generator (kit: draining_generator states and argues the conditions)
+            dr = K.draining_generator(flow, v.it, F, _rn(cfg, v.scope)[0])
+            if dr is not None and K.entry_component(dr.kind, dr.path + pth) == ("value", (1,)):
+                lp = v.scope
+                handled.add(id(lp))
+                what = "for ... in <drain of self.incoming_requests>"
+                inner = [e for e, pol, g in cfg.guards(cn[0]) if e is not lp and _inside(lp, e)]
+                cut = [n for n in walk_no_nested(lp) if isinstance(n, (ast.Break, ast.Return))]
+                ctx.ob("the stopper of every entry taken out at shutdown is called", not inner and not cut and _enclosing_loop(cfg, c) is lp, fi, lp, construct=what)
+                ctx.ob("shutdown reaches the stop-all loop on every path", cfg.must_pass(cfg.entry, set(_rn(cfg, lp))), fi, lp, construct=what)
+                fn = [n.id for n in cfg.nodes if n.kind == "F" and n.ast is lp and cfg.is_reachable(n.id)]
+                for rs in resets:
+                    ctx.ob("incoming_requests is dropped only after every request was stopped", all(any(cfg.dominates(f_, i) for f_ in fn) for i in _rn(cfg, rs)), fi, rs)
+                done = True
+                continue
         at_v = flow.site(v, cn[0])
         er = flow.entry_read(v, F, at_v)
         if er is None or K.entry_component(er[0], pth) != ("value", (1,)):
@@ -1261,13 +1278,9 @@ def _e_shutdown(ctx):
         lp = _enclosing_loop(cfg, c)
         if not isinstance(lp, ast.While) or id(lp) in handled:
             continue
-        t = lp.test
-        if isinstance(t, ast.Compare) and len(t.ops) == 1 and isinstance(t.left, ast.Call) and chain(t.left.func) == "len" and len(t.left.args) == 1:
-            t = t.left.args[0]
-        elif isinstance(t, ast.Call) and chain(t.func) == "len" and len(t.args) == 1:
-            t = t.args[0]
+        t = K.nonempty_test_subject(lp.test)  # `while F:`, `while len(F):`, `while len(F) > 0:`, `while F != {}:` ...
         head = _n1(ctx, cfg, lp, "shutdown loop")
-        if not flow.denotes_field(t, F, head):
+        if t is None or not flow.denotes_field(t, F, head):
             continue
         handled.add(id(lp))
         tnode = [n.id for n in cfg.nodes if n.kind == "T" and n.stmt is lp and cfg.is_reachable(n.id)]
